@@ -3,6 +3,7 @@ import Props.C13
 import Proofs.JoinConv
 import Proofs.Converge
 import Proofs.Round
+import Proofs.RoundConv
 /-!
 # C03 — Gossip converges
 
@@ -600,5 +601,425 @@ example :
       [⟨"x", "ax", 0, false⟩, ⟨"y", "ay", 0, false⟩, ⟨"z", "az", 0, false⟩]).1 (fun id => id = "y") 7).1
     (roundTargets s 0 0).map (·.id) = ["z", "y"] ∧ (roundTargets s 1 5).map (·.id) = ["x", "y"] := by
   decide
+
+/-! ## The datagram push-pull round converges (network level)
+
+`gossipRound` sends a digest request by UDP (`Op.sendDigest … request = true`), the receiver's
+`packetListener.handlePacket` applies it and answers with a delta - cut at the packet limit - and its
+own digest (`Op.deliver` of the request), and the requester applies the delta (`Op.deliver` of the
+reply).  `pullRound i r dst …` (`Proofs/RoundConv.lean`) is these three steps as a history fragment.
+The theorems below are the datagram analogue of `C03_join_catches_up … C03_converges_all`: **when the
+packets fit** - the request digest carries the requester's entry about the owner (`roundDigest`) and the
+reply is not cut before the end of the owner's entry - one round catches the requester up with the
+owner, whatever else the packets carry (duplicated or third-party entries included) and whatever the
+requester knew before. -/
+
+/-- applying the owner's delta entry computed for **any** base the view has reached (not only the
+view's own version) catches the view up: entries at or below the view's version are skipped, the
+rest is the outstanding suffix -/
+theorem applyEntries_catches_up {H : List Entry} {O V : NodeSt} (now : Nat) (ho : OwnerInv H O)
+    (hv : ViewInv H O V) (v0 : Nat) (hb : v0 ≤ V.version) (hH : H ≠ []) :
+    (applyEntries now V (deltaEntry O v0).entries).1.version = O.version := by
+  have hp := deltaEntry_pktInv ho (SrcOK.ofOwner ho) v0
+  rw [applyEntries_skip now _ V hp.sorted]
+  have hp' := hp.dropLE V.version hb
+  have hmono := (applyEntries_version_mono now
+    ((deltaEntry O v0).entries.filter (fun e => decide (V.version < e.version))) V).1
+  have hle := (applyEntries_viewInv now ho _ V V.version hv hp' (Nat.le_refl _)).le
+  have hVle := hv.le
+  by_cases hlt : V.version < O.version
+  · obtain ⟨h0, hh0⟩ := List.exists_mem_of_ne_nil H hH
+    obtain ⟨k, e, hk, hev⟩ := ho.top h0 hh0
+    have hmem : e ∈ (deltaEntry O v0).entries.filter (fun e => decide (V.version < e.version)) := by
+      apply List.mem_filter.mpr
+      refine ⟨?_, by simp; omega⟩
+      simp only [deltaEntry, mem_sortByVersion, List.mem_filter, decide_eq_true_eq]
+      exact ⟨(AMap.mem_vals_iff ho.wf.nodup).mpr ⟨k, hk⟩, by omega⟩
+    have hne := List.ne_nil_of_mem hmem
+    obtain ⟨l, hl⟩ : ∃ l, ((deltaEntry O v0).entries.filter
+        (fun e => decide (V.version < e.version))).getLast? = some l := by
+      cases hh : ((deltaEntry O v0).entries.filter (fun e => decide (V.version < e.version))).getLast? with
+      | none => exact absurd (List.getLast?_eq_none_iff.mp hh) hne
+      | some l => exact ⟨l, rfl⟩
+    rw [applyEntries_version_last now _ V H O ho hv V.version hp' (Nat.le_refl _) hne hp'.base l hl]
+    have h1 := le_getLast_of_sorted hp'.sorted hmem hl
+    have h2 := ho.hb l (hp'.genuine l (List.mem_of_getLast? hl))
+    omega
+  · omega
+
+/-- **A delta that carries the owner's entry for the receiver's version catches the receiver up**,
+wherever in the delta that entry stands and whatever else the delta carries (other nodes, older or
+duplicated entries about the same owner), provided every entry is acceptable (`DeOK`: what `NetInv`
+guarantees for every pooled delta). -/
+theorem applyDelta_reaches_owner {W : World} {s : CState} (now : Nat) (d : Delta) (hs : RecvInv W s)
+    (hd : ∀ de ∈ d, DeOK W s de) {a : String} {H : List Entry} {O V : NodeSt}
+    (hW : W a = some (H, O)) (ho : OwnerInv H O) (hOid : O.id = a) (hal : a ≠ s.localId)
+    (hV : s.nodes.find a = some V) (hx : deltaEntry O V.version ∈ d) (hH : H ≠ []) :
+    ∃ V', (applyDelta now s d).1.nodes.find a = some V' ∧ O.version ≤ V'.version := by
+  obtain ⟨pre, post, hsplit⟩ := List.mem_iff_append.mp hx
+  rw [hsplit, applyDelta_append, applyDelta_cons_fst]
+  obtain ⟨hs1, _, hlid1, _⟩ := applyDelta_recv now pre s hs
+    (fun de hde => hd de (by rw [hsplit]; exact List.mem_append_left _ hde))
+  obtain ⟨V1, hV1, hle1⟩ := (keeps_applyDelta now pre s).mono a V hV
+  have hview : ViewInv H O V1 := hs1.views a V1 H O hV1 (by rw [hlid1]; exact hal) hW
+  have hfind2 : (applyDeltaEntry now (applyDelta now s pre).1 (deltaEntry O V.version)).1.nodes.find a =
+      some (applyEntries now V1 (deltaEntry O V.version).entries).1 := by
+    rw [applyDeltaEntry_find]
+    have h1 : ¬ a = (applyDelta now s pre).1.localId := by rw [hlid1]; exact hal
+    have h2 : (deltaEntry O V.version).id = a := hOid
+    simp only [h2, h1, if_false, if_true, hV1, Option.getD_some]
+  obtain ⟨V', hV', hle'⟩ := (keeps_applyDelta now post _).mono a _ hfind2
+  refine ⟨V', hV', ?_⟩
+  rw [applyEntries_catches_up now ho hview V.version hle1 hH] at hle'
+  exact hle'
+
+/-- **One datagram round with the owner catches up (network level).**  In every state reachable by
+an allowed history, let `r` remember `a` (view `V`), `a` hold at least one entry, and let the three
+steps of a round `r → a` follow: `r` emits a digest request to `a`'s address whose (selected, cut)
+digest still carries `r`'s entry about `a` (`hdig`); the request is delivered at `a`, the delta reply
+being cut at `cut2` whole items in such a way that `a`'s own entry in it survives (`hfit`; see
+`C03_round_fits_of_full` for "everything fits"); the reply is delivered at `r`.  Then `r`'s view of
+`a` is at `a`'s version and agrees with `a`'s own entries on every key, and `a`'s own state is
+unchanged.  `perm`, `perm2`, `dcut2` (what the digest reply carries) and the clocks are arbitrary. -/
+theorem C03_pull_round_catches_up {ops : List Op} (h : AllowedRev ops) {r a : String} {sr sa : CState}
+    {V : NodeSt} (hr : (runRev ops).net.nodes.find r = some sr)
+    (ha : (runRev ops).net.nodes.find a = some sa) (hne : r ≠ a) (hent : (own sa).entries ≠ [])
+    (hV : sr.nodes.find a = some V)
+    (perm : List Nat) (cut cut2 : Nat) (perm2 : List Nat) (dcut2 now2 now3 : Nat)
+    (hdig : ∃ de ∈ roundDigest sr perm cut, de.id = a)
+    (hfit : ∀ x ∈ roundReply sa (roundDigest sr perm cut), x.id = a →
+      x ∈ cutDelta cut2 (roundReply sa (roundDigest sr perm cut))) :
+    ∃ sr' sa' V',
+      (runRev (pullRound (runRev ops).net.pool.length r (own sa).addr perm cut cut2 perm2 dcut2 now2 now3
+        ++ ops)).net.nodes.find r = some sr' ∧
+      (runRev (pullRound (runRev ops).net.pool.length r (own sa).addr perm cut cut2 perm2 dcut2 now2 now3
+        ++ ops)).net.nodes.find a = some sa' ∧ own sa' = own sa ∧
+      sr'.nodes.find a = some V' ∧ V'.version = (own sa).version ∧
+      ∀ k, V'.entries.find k = (own sa).entries.find k := by
+  simp only [pullRound, List.cons_append, List.nil_append]
+  have hinv := netInv_runRev ops h
+  have hnodeR := hinv.node r sr hr
+  have hnodeA := hinv.node a sa ha
+  have hrlid : sr.localId = r := hnodeR.lid
+  generalize hD : roundDigest sr perm cut = D at hdig hfit
+  generalize hi : (runRev ops).net.pool.length = i
+  -- step 1: the request is pooled
+  have hall1 : AllowedRev (.sendDigest r (own sa).addr true perm cut :: ops) := ⟨h, trivial⟩
+  have e1 : (runRev (.sendDigest r (own sa).addr true perm cut :: ops)).net =
+      { nodes := (runRev ops).net.nodes,
+        pool := (runRev ops).net.pool ++ [Packet.digest (own sr).id (own sr).addr (own sa).addr true D] } := by
+    rw [runRev_net_cons, step_sendDigest hr, hD]
+  have hinv1 := netInv_runRev _ hall1
+  have ha1 : (runRev (.sendDigest r (own sa).addr true perm cut :: ops)).net.nodes.find a = some sa := by
+    rw [e1]; exact ha
+  have hb1 := nodeByAddr_of_find hinv1 ha1
+  have hp1 : (runRev (.sendDigest r (own sa).addr true perm cut :: ops)).net.pool[i]? =
+      some (Packet.digest (own sr).id (own sr).addr (own sa).addr true D) := by
+    rw [e1, ← hi]; simp
+  -- step 2: `a` handles it
+  have hall2 : AllowedRev (.deliver i cut2 perm2 dcut2 now2 :: .sendDigest r (own sa).addr true perm cut :: ops) :=
+    ⟨hall1, trivial⟩
+  have e2 := step_deliver_digest hp1 hb1 cut2 perm2 dcut2 now2
+  rw [← runRev_net_cons, e1] at e2
+  simp only [if_true] at e2
+  have hinv2 := netInv_runRev _ hall2
+  have hpresA : OwnPresent sa := hnodeA.recv.ownPresent
+  have hown1 : own (applyDigest sa D).1 = own sa := own_applyDigest D sa hpresA
+  have ha2 : (runRev (.deliver i cut2 perm2 dcut2 now2 :: .sendDigest r (own sa).addr true perm cut :: ops)).net.nodes.find a =
+      some (applyDigest sa D).1 := by rw [e2]; simp
+  have hr2 : (runRev (.deliver i cut2 perm2 dcut2 now2 :: .sendDigest r (own sa).addr true perm cut :: ops)).net.nodes.find r =
+      some sr := by
+    rw [e2]; simp only; rw [AMap.find_insert_ne _ _ hne]; exact hr
+  have hb2 := nodeByAddr_of_find hinv2 hr2
+  have hp2 : (runRev (.deliver i cut2 perm2 dcut2 now2 :: .sendDigest r (own sa).addr true perm cut :: ops)).net.pool[i + 1]? =
+      some (Packet.delta (own (applyDigest sa D).1).id (own (applyDigest sa D).1).addr (own sr).addr
+        (cutDelta cut2 (delta (applyDigest sa D).1 D false))) := by
+    rw [e2, ← hi]; exact getElem?_pool_snd _ _ _ _
+  -- step 3: `r` applies the reply
+  have hall3 : AllowedRev (.deliver (i + 1) 0 [] 0 now3 :: .deliver i cut2 perm2 dcut2 now2 ::
+      .sendDigest r (own sa).addr true perm cut :: ops) := ⟨hall2, trivial⟩
+  have e3 := step_deliver_delta hp2 hb2 0 [] 0 now3
+  rw [← runRev_net_cons] at e3
+  have hr3 : (runRev (.deliver (i + 1) 0 [] 0 now3 :: .deliver i cut2 perm2 dcut2 now2 ::
+      .sendDigest r (own sa).addr true perm cut :: ops)).net.nodes.find r =
+      some (applyDelta now3 sr (cutDelta cut2 (delta (applyDigest sa D).1 D false))).1 := by
+    rw [e3]; simp
+  have ha3 : (runRev (.deliver (i + 1) 0 [] 0 now3 :: .deliver i cut2 perm2 dcut2 now2 ::
+      .sendDigest r (own sa).addr true perm cut :: ops)).net.nodes.find a = some (applyDigest sa D).1 := by
+    rw [e3]; simp only; rw [AMap.find_insert_ne _ _ (fun e => hne e.symm)]; exact ha2
+  -- the owner, as the world of the state before step 3 sees it
+  have hnodeA2 := hinv2.node a _ ha2
+  have howner : OwnerInv ((runRev (.deliver i cut2 perm2 dcut2 now2 ::
+      .sendDigest r (own sa).addr true perm cut :: ops)).hist a) (own sa) := hown1 ▸ hnodeA2.owner
+  have hOid : (own sa).id = a := hnodeA.ownId
+  have hW : (runRev (.deliver i cut2 perm2 dcut2 now2 :: .sendDigest r (own sa).addr true perm cut :: ops)).world a =
+      some ((runRev (.deliver i cut2 perm2 dcut2 now2 :: .sendDigest r (own sa).addr true perm cut :: ops)).hist a,
+        own sa) := by
+    simp [GNet.world, ha2, hown1]
+  obtain ⟨p0, hp0⟩ := List.exists_mem_of_ne_nil _ hent
+  have hf0 := AMap.findOfMem howner.wf.nodup (k := p0.1) (v := p0.2) hp0
+  have hH : (runRev (.deliver i cut2 perm2 dcut2 now2 :: .sendDigest r (own sa).addr true perm cut :: ops)).hist a ≠ [] :=
+    List.ne_nil_of_mem (howner.cur _ _ hf0)
+  have hnodeR2 := hinv2.node r sr hr2
+  have hal : a ≠ sr.localId := by rw [hrlid]; exact fun e => hne e.symm
+  have hview : ViewInv _ (own sa) V := hnodeR2.recv.views a V _ _ hV hal hW
+  -- r's view of `a` after the round is at least at the owner's version
+  have hreach : ∃ V', (applyDelta now3 sr (cutDelta cut2 (delta (applyDigest sa D).1 D false))).1.nodes.find a = some V' ∧
+      (own sa).version ≤ V'.version := by
+    by_cases hlt : V.version < (own sa).version
+    · -- outstanding entries: the reply carries them
+      obtain ⟨de, hde, hdeid⟩ := hdig
+      have hdever : de.version = V.version :=
+        roundDigest_version hnodeR.nd hnodeR.recv.ids (hD ▸ hde) (hdeid ▸ hV)
+      have hfind1 : (applyDigest sa D).1.nodes.find a = some (own sa) := by
+        obtain ⟨n, hn⟩ := hnodeA2.recv.ownPresent
+        rw [hnodeA2.lid] at hn
+        have : own (applyDigest sa D).1 = n := by simp [own, hnodeA2.lid, hn]
+        rw [hn, ← this, hown1]
+      obtain ⟨kt, et, hkt, hvt⟩ := howner.top _ (howner.cur _ _ hf0)
+      have het : et ∈ (deltaEntry (own sa) V.version).entries := by
+        simp only [deltaEntry, mem_sortByVersion, List.mem_filter, decide_eq_true_eq]
+        exact ⟨(AMap.mem_vals_iff howner.wf.nodup).mpr ⟨kt, hkt⟩, by omega⟩
+      have hnempty : ¬ (deltaEntry (own sa) V.version).entries.isEmpty = true := by
+        intro he; rw [List.isEmpty_iff] at he; rw [he] at het; cases het
+      have hx : deltaEntry (own sa) V.version ∈ roundReply sa D := by
+        unfold roundReply delta
+        apply List.mem_append_left
+        apply List.mem_filterMap.mpr
+        refine ⟨de, hde, ?_⟩
+        rw [hdeid, hfind1, hdever]
+        simp [hnempty]
+      have hx' := hfit _ hx hOid
+      have hdeOK : ∀ x ∈ cutDelta cut2 (delta (applyDigest sa D).1 D false), DeOK _ sr x :=
+        hinv2.deltas _ _ _ _ (List.mem_of_getElem? hp2) r sr hr2 rfl
+      exact applyDelta_reaches_owner now3 _ hnodeR2.recv hdeOK hW howner hOid hal hV hx' hH
+    · -- nothing newer: the view already is at the owner's version, and versions never go down
+      obtain ⟨V', hV', hle'⟩ := (keeps_applyDelta now3 (cutDelta cut2 (delta (applyDigest sa D).1 D false)) sr).mono a V hV
+      have := hview.le
+      exact ⟨V', hV', by omega⟩
+  obtain ⟨V', hV', hge⟩ := hreach
+  have hobs : Observes (runRev (.deliver (i + 1) 0 [] 0 now3 :: .deliver i cut2 perm2 dcut2 now2 ::
+      .sendDigest r (own sa).addr true perm cut :: ops)) r a V' (own sa) :=
+    ⟨fun e => hne e.symm, ⟨_, hr3, hV'⟩, ⟨_, ha3, hown1⟩⟩
+  have hle := (C02_version_bounds hall3 hobs).1
+  have heq : V'.version = (own sa).version := by omega
+  exact ⟨_, _, V', hr3, ha3, hown1, hV', heq, C02_caught_up_exact hall3 hobs heq⟩
+
+/-- "everything fits" is a special case of the fit hypotheses of `C03_pull_round_catches_up`: the
+full digest (`perm = List.range n`, `cut = n ≥` the number of nodes `r` remembers) carries `r`'s entry
+about `a`, and a reply cut at or beyond its item count is not cut at all. -/
+theorem C03_round_fits_of_full {ops : List Op} (h : AllowedRev ops) {r a : String} {sr sa : CState}
+    {V : NodeSt} (hr : (runRev ops).net.nodes.find r = some sr)
+    (ha : (runRev ops).net.nodes.find a = some sa) (hV : sr.nodes.find a = some V) {n cut2 : Nat}
+    (hn : (digest sr).length ≤ n)
+    (hc : deltaItems (roundReply sa (roundDigest sr (List.range n) n)) ≤ cut2) :
+    RoundFits (runRev ops) r a (List.range n) n cut2 :=
+  roundFits_of_full (netInv_runRev ops h) hr ha hV hn hc
+
+/-- **Discovery by a datagram round.**  If `r` does not know `a` (it only has `a`'s address - the
+situation after `Gossip.JoinOnBoot` resolved a seed address but the stream join failed, or of a
+peer learned out of band), the delta reply of the round tells `r` nothing about `a` (it answers
+`r`'s digest, which does not list `a`), but the **digest reply** does: `a` has not left, its digest
+reply (selection `perm2`, cut `dcut2`) carries its entry about itself (`hdig2`), and delivering it at
+`r` (`step4`, pooled packet `i + 2`) makes `r` `ApplyDigest` it.  Afterwards `r` remembers `a` at
+version 0 with `a`'s gossip address, no entries; the watcher of `r` was told `join a`; `a`'s own state
+is unchanged.  (`r` also answers with a delta, and the next round catches up:
+`C03_pull_round_discovers_then_catches_up`.) -/
+theorem C03_pull_round_discovers {ops : List Op} (h : AllowedRev ops) {r a : String} {sr sa : CState}
+    (hr : (runRev ops).net.nodes.find r = some sr) (ha : (runRev ops).net.nodes.find a = some sa)
+    (hne : r ≠ a) (hV : sr.nodes.find a = none) (hleft : (own sa).left = false)
+    (perm : List Nat) (cut cut2 : Nat) (perm2 : List Nat) (dcut2 now2 now3 : Nat)
+    (cut4 : Nat) (perm4 : List Nat) (dcut4 now4 : Nat)
+    (hdig2 : ∃ de ∈ roundDigest (applyDigest sa (roundDigest sr perm cut)).1 perm2 dcut2, de.id = a) :
+    ∃ sr' sa',
+      (runRev (.deliver ((runRev ops).net.pool.length + 2) cut4 perm4 dcut4 now4 ::
+        (pullRound (runRev ops).net.pool.length r (own sa).addr perm cut cut2 perm2 dcut2 now2 now3
+          ++ ops))).net.nodes.find r = some sr' ∧
+      (runRev (.deliver ((runRev ops).net.pool.length + 2) cut4 perm4 dcut4 now4 ::
+        (pullRound (runRev ops).net.pool.length r (own sa).addr perm cut cut2 perm2 dcut2 now2 now3
+          ++ ops))).net.nodes.find a = some sa' ∧ own sa' = own sa ∧
+      sr'.nodes.find a = some { id := a, addr := (own sa).addr } ∧
+      Event.join a ∈ ((runRev (pullRound (runRev ops).net.pool.length r (own sa).addr perm cut cut2 perm2
+          dcut2 now2 now3 ++ ops)).net.step
+        (.deliver ((runRev ops).net.pool.length + 2) cut4 perm4 dcut4 now4)).events ∧
+      ((runRev (pullRound (runRev ops).net.pool.length r (own sa).addr perm cut cut2 perm2
+          dcut2 now2 now3 ++ ops)).net.step
+        (.deliver ((runRev ops).net.pool.length + 2) cut4 perm4 dcut4 now4)).who = r := by
+  have hinv := netInv_runRev ops h
+  have hnodeR := hinv.node r sr hr
+  have hnodeA := hinv.node a sa ha
+  have e3 := pullRound_net h hr ha hne perm cut cut2 perm2 dcut2 now2 now3
+  have hall3 : AllowedRev (pullRound (runRev ops).net.pool.length r (own sa).addr perm cut cut2 perm2 dcut2
+      now2 now3 ++ ops) := ⟨⟨⟨h, trivial⟩, trivial⟩, trivial⟩
+  have hinv3 := netInv_runRev _ hall3
+  generalize hhist : pullRound (runRev ops).net.pool.length r (own sa).addr perm cut cut2 perm2 dcut2
+      now2 now3 ++ ops = hist3 at e3 hall3 hinv3 ⊢
+  generalize hD : roundDigest sr perm cut = D at e3 hdig2
+  generalize hi : (runRev ops).net.pool.length = i at e3 ⊢
+  have hpresA : OwnPresent sa := hnodeA.recv.ownPresent
+  have hown1 : own (applyDigest sa D).1 = own sa := own_applyDigest D sa hpresA
+  -- the states after the three steps
+  have hr3 : (runRev hist3).net.nodes.find r = some (applyDelta now3 sr (cutDelta cut2 (roundReply sa D))).1 := by
+    rw [e3]; simp
+  have ha3 : (runRev hist3).net.nodes.find a = some (applyDigest sa D).1 := by
+    rw [e3]; simp only; rw [AMap.find_insert_ne _ _ (fun e => hne e.symm)]; simp
+  have hnodeA3 := hinv3.node a _ ha3
+  have hfindA : (applyDigest sa D).1.nodes.find a = some (own sa) := by
+    obtain ⟨n, hn⟩ := hnodeA3.recv.ownPresent
+    rw [hnodeA3.lid] at hn
+    have : own (applyDigest sa D).1 = n := by simp [own, hnodeA3.lid, hn]
+    rw [hn, ← this, hown1]
+  -- the delta reply says nothing about `a`
+  have hnoA : ∀ y ∈ cutDelta cut2 (roundReply sa D), y.id ≠ a := by
+    intro y hy hya
+    obtain ⟨y0, hy0, hid, _⟩ := cutDelta_spec cut2 _ y hy
+    unfold roundReply delta at hy0
+    simp only [Bool.false_eq_true, if_false, List.append_nil] at hy0
+    obtain ⟨de', hde', hsome⟩ := List.mem_filterMap.mp hy0
+    cases hf : (applyDigest sa D).1.nodes.find de'.id with
+    | none => simp [hf] at hsome
+    | some n =>
+      simp only [hf] at hsome
+      split at hsome
+      · cases hsome
+      · simp only [Option.some.injEq] at hsome
+        have hy0id : y0.id = de'.id := by rw [← hsome]; exact hnodeA3.recv.ids _ _ hf
+        obtain ⟨_, hcl, _⟩ := digest_spec hnodeR.nd hnodeR.recv.ids
+        obtain ⟨m, hm, _⟩ := hcl de' (mem_roundDigest (hD ▸ hde'))
+        rw [← hy0id, ← hid, hya, hV] at hm; cases hm
+  have hV3 : (applyDelta now3 sr (cutDelta cut2 (roundReply sa D))).1.nodes.find a = none := by
+    rw [applyDelta_find_untouched now3 a _ sr hnoA]; exact hV
+  -- step 4: the digest reply reaches `r`
+  have hown3 : own (applyDelta now3 sr (cutDelta cut2 (roundReply sa D))).1 = own sr := own_applyDelta now3 _ sr
+  have hb3 := nodeByAddr_of_find hinv3 hr3
+  rw [hown3] at hb3
+  have hp3 : (runRev hist3).net.pool[i + 2]? = some (Packet.digest (own sa).id (own sa).addr (own sr).addr false
+      (roundDigest (applyDigest sa D).1 perm2 dcut2)) := by
+    rw [e3, ← hi]; exact getElem?_pool_third _ _ _ _ _
+  have e4 := step_deliver_digest hp3 hb3 cut4 perm4 dcut4 now4
+  rw [← runRev_net_cons] at e4
+  obtain ⟨hev, hwho⟩ := step_deliver_digest_events hp3 hb3 cut4 perm4 dcut4 now4
+  -- what the digest reply says about `a`
+  obtain ⟨de, hde, hdeid⟩ := hdig2
+  have hdeq := mem_digest_eq hnodeA3.nd hnodeA3.recv.ids (mem_roundDigest hde) (hdeid ▸ hfindA)
+  have hdel : de.left = false := by rw [hdeq]; exact hleft
+  obtain ⟨de', hde', hde'id, hfind4, hjoin⟩ := applyDigest_discovers
+    (roundDigest (applyDigest sa D).1 perm2 dcut2) _ hde hdel (by rw [hdeid]; exact hV3)
+  have hde'q := mem_digest_eq hnodeA3.nd hnodeA3.recv.ids (mem_roundDigest hde')
+    (by rw [hde'id, hdeid]; exact hfindA)
+  have hde'addr : de'.addr = (own sa).addr := by rw [hde'q]
+  rw [hdeid, hde'addr] at hfind4
+  rw [hdeid] at hjoin
+  refine ⟨_, _, ?_, ?_, hown1, hfind4, by rw [hev]; exact hjoin, hwho⟩
+  · rw [e4]; simp
+  · rw [e4]; simp only; rw [AMap.find_insert_ne _ _ (fun e => hne e.symm)]; exact ha3
+
+/-- ... **and the next round catches up**: after the discovery (four steps), any further datagram
+round `r → a` whose packets fit brings `r`'s view of `a` - the version-0 view the digest reply
+created - to `a`'s own state. -/
+theorem C03_pull_round_discovers_then_catches_up {ops : List Op} (h : AllowedRev ops) {r a : String}
+    {sr sa : CState} (hr : (runRev ops).net.nodes.find r = some sr)
+    (ha : (runRev ops).net.nodes.find a = some sa) (hne : r ≠ a) (hent : (own sa).entries ≠ [])
+    (hV : sr.nodes.find a = none) (hleft : (own sa).left = false)
+    (perm : List Nat) (cut cut2 : Nat) (perm2 : List Nat) (dcut2 now2 now3 : Nat)
+    (cut4 : Nat) (perm4 : List Nat) (dcut4 now4 : Nat)
+    (hdig2 : ∃ de ∈ roundDigest (applyDigest sa (roundDigest sr perm cut)).1 perm2 dcut2, de.id = a)
+    (perm' : List Nat) (cut' cut2' : Nat) (perm2' : List Nat) (dcut2' now2' now3' : Nat)
+    {hist4 : List Op}
+    (hhist : hist4 = .deliver ((runRev ops).net.pool.length + 2) cut4 perm4 dcut4 now4 ::
+      (pullRound (runRev ops).net.pool.length r (own sa).addr perm cut cut2 perm2 dcut2 now2 now3 ++ ops))
+    (hfits : RoundFits (runRev hist4) r a perm' cut' cut2') :
+    ∃ sr' sa' V',
+      (runRev (pullRound (runRev hist4).net.pool.length r (own sa).addr perm' cut' cut2' perm2' dcut2' now2' now3'
+        ++ hist4)).net.nodes.find r = some sr' ∧
+      (runRev (pullRound (runRev hist4).net.pool.length r (own sa).addr perm' cut' cut2' perm2' dcut2' now2' now3'
+        ++ hist4)).net.nodes.find a = some sa' ∧ own sa' = own sa ∧
+      sr'.nodes.find a = some V' ∧ V'.version = (own sa).version ∧
+      ∀ k, V'.entries.find k = (own sa).entries.find k := by
+  obtain ⟨sr4, sa4, hr4, ha4, hown4, hV4, _, _⟩ := C03_pull_round_discovers h hr ha hne hV hleft
+    perm cut cut2 perm2 dcut2 now2 now3 cut4 perm4 dcut4 now4 hdig2
+  rw [← hhist] at hr4 ha4
+  have hall4 : AllowedRev hist4 := by rw [hhist]; exact ⟨⟨⟨⟨h, trivial⟩, trivial⟩, trivial⟩, trivial⟩
+  obtain ⟨hdig, hfit⟩ := hfits sr4 sa4 hr4 ha4
+  have := C03_pull_round_catches_up hall4 hr4 ha4 hne (by rw [hown4]; exact hent) hV4
+    perm' cut' cut2' perm2' dcut2' now2' now3' hdig hfit
+  rw [hown4] at this
+  exact this
+
+/-- the induction-free core of `C03_converges_rounds`: history `ops`, then `pre`, then the round,
+then `post`; the owner `a` does not write during `pre` and `post` -/
+theorem C03_converges_rounds_owner_quiet {ops sched : List Op} (hall : AllowedRev (sched ++ ops))
+    {r a : String} {sr sa : CState} {V : NodeSt} (hq : ∀ op ∈ sched, op.writer ≠ some a)
+    (hr : (runRev ops).net.nodes.find r = some sr) (ha : (runRev ops).net.nodes.find a = some sa)
+    (hne : r ≠ a) (hent : (own sa).entries ≠ []) (hV : sr.nodes.find a = some V)
+    (hround : HasFittingRound ops sched r a (own sa).addr) :
+    ∃ sr' sa' V', (runRev (sched ++ ops)).net.nodes.find r = some sr' ∧
+      (runRev (sched ++ ops)).net.nodes.find a = some sa' ∧ own sa' = own sa ∧
+      sr'.nodes.find a = some V' ∧ V'.version = (own sa).version ∧
+      ∀ k, V'.entries.find k = (own sa).entries.find k := by
+  obtain ⟨pre, post, perm, cut, cut2, perm2, dcut2, now2, now3, hs, hfits⟩ := hround
+  subst hs
+  simp only [List.append_assoc] at hall ⊢
+  have hallR := allowedRev_append post _ hall
+  have hallP := allowedRev_append _ _ hallR
+  have hqpre : ∀ op ∈ pre, op.writer ≠ some a := fun op hm =>
+    hq op (List.mem_append_right _ (List.mem_append_right _ hm))
+  have hqpost : ∀ op ∈ post, op.writer ≠ some a := fun op hm => hq op (List.mem_append_left _ hm)
+  -- up to the round: `r` still remembers `a`, `a`'s own state is the same
+  obtain ⟨sr1, hr1, hk1, _⟩ := run_keeps pre ops hallP hr
+  obtain ⟨sa1, ha1, _, hown1⟩ := run_keeps pre ops hallP ha
+  have hown1 := hown1 hqpre
+  obtain ⟨V1, hV1, _⟩ := hk1.mono a V hV
+  obtain ⟨hdig, hfit⟩ := hfits sr1 sa1 hr1 ha1
+  -- the round
+  obtain ⟨sr2, sa2, V2, hr2, ha2, hown2, hV2, heq2, _⟩ :=
+    C03_pull_round_catches_up hallP hr1 ha1 hne (by rw [hown1]; exact hent) hV1
+      perm cut cut2 perm2 dcut2 now2 now3 hdig hfit
+  rw [hown1] at hr2 ha2 hown2 heq2
+  have hobs2 : Observes (runRev (pullRound (runRev (pre ++ ops)).net.pool.length r (own sa).addr perm cut cut2
+      perm2 dcut2 now2 now3 ++ (pre ++ ops))) r a V2 (own sa) :=
+    ⟨fun e => hne e.symm, ⟨sr2, hr2, hV2⟩, ⟨sa2, ha2, hown2⟩⟩
+  -- after the round
+  obtain ⟨V3, hobs3, heq3, hex3⟩ := C03_caught_up_stable_run post hall hqpost hobs2 heq2
+  obtain ⟨sr3, h1, h2⟩ := hobs3.obs
+  obtain ⟨sa3, h3, h4⟩ := hobs3.own
+  exact ⟨sr3, sa3, V3, h1, h3, h4, h2, heq3, hex3⟩
+
+/-- **Convergence of one ordered pair by a datagram round** after the local updates stopped: `ops` is
+any allowed history after which `r` remembers `a`; every operation of the continuation `sched` is
+quiet, and `sched` contains - contiguously, in order, anywhere - the three steps of one round `r → a`
+whose packets fit (`HasFittingRound`).  Then at the end `r`'s view of `a` is exactly `a`'s own state:
+same version, key by key the same entry or the same absence.  The datagram analogue of
+`C03_converges`. -/
+theorem C03_converges_rounds {ops sched : List Op} (hall : AllowedRev (sched ++ ops))
+    (hq : ∀ op ∈ sched, Quiet op) {r a : String} {sr sa : CState} {V : NodeSt}
+    (hr : (runRev ops).net.nodes.find r = some sr) (ha : (runRev ops).net.nodes.find a = some sa)
+    (hne : r ≠ a) (hent : (own sa).entries ≠ []) (hV : sr.nodes.find a = some V)
+    (hround : HasFittingRound ops sched r a (own sa).addr) :
+    ∃ sr' sa' V', (runRev (sched ++ ops)).net.nodes.find r = some sr' ∧
+      (runRev (sched ++ ops)).net.nodes.find a = some sa' ∧ own sa' = own sa ∧
+      sr'.nodes.find a = some V' ∧ V'.version = (own sa).version ∧
+      ∀ k, V'.entries.find k = (own sa).entries.find k :=
+  C03_converges_rounds_owner_quiet hall (fun op hm => (hq op hm).writer_ne a) hr ha hne hent hV hround
+
+/-- **The whole network converges by datagram rounds.**  After the local updates stopped (`sched` is
+quiet), if the schedule contains a fitting round for every ordered pair `(r, a)` of distinct nodes
+such that `r` remembered `a` when the updates stopped (and `a` holds at least one entry), then at the
+end - simultaneously, in the one final state - every such `r`'s view of `a` is exactly `a`'s own
+state, and every own state is the one it was when the updates stopped.  (Pairs that do not know each
+other yet need a discovery first: `C03_pull_round_discovers`, or a stream join.) -/
+theorem C03_converges_all_rounds {ops sched : List Op} (hall : AllowedRev (sched ++ ops))
+    (hq : ∀ op ∈ sched, Quiet op)
+    (hsched : ∀ r a sr sa V, r ≠ a → (runRev ops).net.nodes.find r = some sr →
+      (runRev ops).net.nodes.find a = some sa → (own sa).entries ≠ [] → sr.nodes.find a = some V →
+      HasFittingRound ops sched r a (own sa).addr) :
+    ∀ r a sr sa V, r ≠ a → (runRev ops).net.nodes.find r = some sr →
+      (runRev ops).net.nodes.find a = some sa → (own sa).entries ≠ [] → sr.nodes.find a = some V →
+      ∃ sr' sa' V', (runRev (sched ++ ops)).net.nodes.find r = some sr' ∧
+        (runRev (sched ++ ops)).net.nodes.find a = some sa' ∧ own sa' = own sa ∧
+        sr'.nodes.find a = some V' ∧ V'.version = (own sa).version ∧
+        ∀ k, V'.entries.find k = (own sa).entries.find k := by
+  intro r a sr sa V hne hr ha hent hV
+  exact C03_converges_rounds hall hq hr ha hne hent hV (hsched r a sr sa V hne hr ha hent hV)
 
 end Piko
